@@ -27,7 +27,7 @@ func (c01) Components() map[string][]string {
 	}
 }
 func (c01) ProbeNames() []string {
-	return []string{"fat12", "fat16", "fat32", "op-refused", "fill-reached-refusal", "empty", "reopen", "held-handle", "start-beyond-4GiB"}
+	return []string{"fat12", "fat16", "fat32", "op-refused", "fill-reached-refusal", "empty", "empty-by-truncate", "reopen", "held-handle", "start-beyond-4GiB"}
 }
 func (c01) Budget(tier string) (int, int, int) {
 	if tier == "thorough" {
